@@ -14,7 +14,7 @@ Section Proofs.
   Variable payload : Type.
   Variable psize : payload -> N.
   Variable ser : payload -> list N.
-  Variable uclass : N -> payload -> option N.
+  Variable uclass : okind -> payload -> option N.
   Variable read_blocks : list N -> res (blocklist payload * list N).
 
   (* C11, first half: a block's reported size is the number of body bytes it writes *)
@@ -38,6 +38,11 @@ Section Proofs.
   Notation update_file := (update_file payload psize ser uclass read_blocks).
   Notation update := (update payload psize ser uclass read_blocks).
   Notation run_edits := (run_edits payload psize ser uclass read_blocks).
+  Notation first_padding := (first_padding payload).
+  Notation set_first_padding := (set_first_padding payload).
+  Notation with_first_padding := (with_first_padding payload).
+  Notation file_inv := (file_inv payload read_blocks).
+  Notation keeps_streaminfo := (keeps_streaminfo payload).
 
   (* ---------------------------------------------------------------- sizes *)
   Lemma obody_len b : lenN (obody b) = osize b.
@@ -138,25 +143,19 @@ Section Proofs.
       destruct (IH r' eq_refl) as (n & n' & Hf & Hr). exists n, n'. split; auto. now constructor.
   Qed.
 
-  (* the size of the first PADDING, if any (BlockList::get::<Padding>) *)
-  Fixpoint first_padding (bs : list oblock) : option N :=
-    match bs with [] => None | OPadding n :: _ => Some n | _ :: r => first_padding r end.
-  Fixpoint set_first_padding (n' : N) (bs : list oblock) : list oblock :=
-    match bs with [] => [] | OPadding _ :: r => OPadding n' :: r | b :: r => b :: set_first_padding n' r end.
-
   Lemma mfp_char f bs : map_first_padding f bs =
     match first_padding bs with
     | None => None
     | Some n => match f n with Some n' => Some (set_first_padding n' bs) | None => None end
     end.
   Proof.
-    induction bs as [|b r IH]; cbn [Update.map_first_padding first_padding set_first_padding]; [reflexivity|].
+    induction bs as [|b r IH]; cbn [Update.map_first_padding Update.first_padding Update.set_first_padding]; [reflexivity|].
     destruct b as [n|ty p]; [destruct (f n); reflexivity|].
     rewrite IH. destruct (first_padding r) as [n|]; [destruct (f n)|]; reflexivity.
   Qed.
 
   Lemma fp_rel_set n n' bs bs' : fp_rel n n' bs bs' -> first_padding bs = Some n /\ bs' = set_first_padding n' bs.
-  Proof. induction 1; cbn [first_padding set_first_padding]; [auto|]. destruct IHfp_rel as [-> ->]. auto. Qed.
+  Proof. induction 1; cbn [Update.first_padding Update.set_first_padding]; [auto|]. destruct IHfp_rel as [-> ->]. auto. Qed.
 
   Lemma fp_rel_size n n' bs bs' : fp_rel n n' bs bs' -> n' <= BLOCK_MAX ->
     forall seen s, opt_size seen bs = Ok s -> exists base, s = base + n /\ opt_size seen bs' = Ok (base + n').
@@ -237,9 +236,6 @@ Section Proofs.
   Qed.
 
   (* closed form of the decision, including the 24-bit limit and the missing-padding case *)
-  Definition with_first_padding (n' : N) (bl : blocklist) : blocklist :=
-    {| bl_si := bl_si payload bl; bl_blocks := set_first_padding n' (bl_blocks payload bl) |}.
-
   Theorem update_plan_char old new bl : update_plan old new bl =
     match new ?= old with
     | Eq => InPlace bl
@@ -255,7 +251,7 @@ Section Proofs.
             end
     end.
   Proof.
-    unfold Update.update_plan, Update.grow_padding, Update.shrink_padding, to_blocksize, with_first_padding.
+    unfold Update.update_plan, Update.grow_padding, Update.shrink_padding, to_blocksize, Update.with_first_padding.
     destruct (new ?= old); [reflexivity| |].
     - destruct (old - new <=? BLOCK_MAX); cbn [andb]; [rewrite mfp_char|];
         destruct (first_padding _) as [n|]; try reflexivity.
@@ -387,12 +383,34 @@ Section Proofs.
     - apply update_plan_rebuild in P. subst. rewrite W. eauto.
   Qed.
 
+  Lemma first_padding_only_set bl1 bl2 : first_padding_only bl1 bl2 ->
+    bl2 = bl1 \/ exists n n', first_padding (bl_blocks payload bl1) = Some n /\ bl2 = with_first_padding n' bl1.
+  Proof.
+    intros [S [E|(n & n' & R)]]; destruct bl1 as [s1 b1], bl2 as [s2 b2]; cbn [bl_si bl_blocks] in *; subst.
+    - now left.
+    - right. apply fp_rel_set in R. destruct R as [F ->]. exists n, n'. split; auto.
+  Qed.
+
+  (* Ok(false) in the vocabulary of Update.v: the new metadata has the old length, is the serialisation of
+     the edited list with at most the first PADDING's size replaced, and reads back as exactly that *)
+  Theorem update_file_inplace_spec edit pre meta audio bl st :
+    read_blocks (meta ++ audio) = Ok (bl, audio) ->
+    update_file edit (length pre) (pre ++ meta ++ audio) = (st, Ok false) ->
+    exists bl1 bl2 meta',
+      edit bl = Ok bl1 /\
+      st = {| orig := pre ++ meta' ++ audio; rebuilt := None |} /\
+      length meta' = length meta /\
+      write_blocks bl2 = Ok meta' /\
+      read_blocks (meta' ++ audio) = Ok (bl2, audio) /\
+      (bl2 = bl1 \/ exists n n', first_padding (bl_blocks payload bl1) = Some n /\ bl2 = with_first_padding n' bl1).
+  Proof.
+    intros R H. destruct (update_file_inplace _ _ _ _ _ _ R H) as (bl1 & bl2 & meta' & E & S & L & W & R2 & F).
+    exists bl1, bl2, meta'. repeat split; auto. now apply first_padding_only_set.
+  Qed.
+
   (* ---------------------------------------------------------------- histories *)
   (* what stays true of the file across any history of updates through `update`:
      it is (some metadata) ++ audio, it parses to blocks followed by exactly `audio` *)
-  Definition file_inv (audio : list N) (file : list N) : Prop :=
-    exists meta bl, file = meta ++ audio /\ read_blocks (meta ++ audio) = Ok (bl, audio).
-
   Lemma update_step edit audio file file' r : file_inv audio file -> update edit file = (file', r) ->
     file_inv audio file'.
   Proof.
@@ -430,11 +448,6 @@ Section Proofs.
   Section Decode.
     Variable pcm : Type.
     Variable decode_frames : payload -> list N -> pcm.
-    Definition decode_file (file : list N) : option pcm :=
-      match read_blocks file with Ok (bl, rest) => Some (decode_frames (bl_si payload bl) rest) | _ => None end.
-    Definition keeps_streaminfo (e : blocklist -> res blocklist) : Prop :=
-      forall bl bl1, e bl = Ok bl1 -> bl_si payload bl1 = bl_si payload bl.
-
     Definition file_inv_si (si : payload) (audio file : list N) : Prop :=
       exists meta bl, file = meta ++ audio /\ read_blocks (meta ++ audio) = Ok (bl, audio) /\ bl_si payload bl = si.
 
@@ -456,7 +469,7 @@ Section Proofs.
     Theorem run_edits_same_pcm edits : Forall keeps_streaminfo edits -> forall audio meta bl fn rs,
       read_blocks (meta ++ audio) = Ok (bl, audio) ->
       run_edits edits (meta ++ audio) = (fn, rs) ->
-      decode_file fn = decode_file (meta ++ audio).
+      decode_file payload read_blocks pcm decode_frames fn = decode_file payload read_blocks pcm decode_frames (meta ++ audio).
     Proof.
       intros K audio meta bl fn rs R H.
       assert (I : file_inv_si (bl_si payload bl) audio (meta ++ audio)) by (exists meta, bl; auto).
@@ -466,7 +479,7 @@ Section Proofs.
         - inversion H; subst; auto.
         - inversion K; subst. destruct (update e file) as [f1 r] eqn:U. destruct (run_edits es f1) as [f2 rs2] eqn:RE.
           inversion H; subst. eapply IH; eauto. eapply update_step_si; eauto. }
-      destruct G as (m & bl' & -> & R' & S'). unfold decode_file. rewrite R, R', S'. reflexivity.
+      destruct G as (m & bl' & -> & R' & S'). unfold Update.decode_file. rewrite R, R', S'. reflexivity.
     Qed.
   End Decode.
 End Proofs.
